@@ -232,3 +232,17 @@ class Background:
         self.t.join()
         if self.err is not None:
             raise self.err
+
+
+def guarded(ctx, name, fn, *args):
+    """run one stream of a check; an exception escaping it (possible only when the tree under test
+    behaves in a way the stream's own code did not anticipate) is reported as a broken tie instead of
+    crashing the whole check"""
+    import traceback
+    try:
+        return fn(*args)
+    except Exception as e:  # noqa: BLE001
+        tb = traceback.extract_tb(e.__traceback__)[-1]
+        ctx.broken.append(f"stream {name} could not complete: {type(e).__name__}: {str(e)[:120]} "
+                          f"(at {tb.filename.split('/')[-1]}:{tb.lineno})")
+        return None
